@@ -251,7 +251,7 @@ impl<R: Rng + Send> Multiplexor<R> {
                 datagram_tx,
                 bnd_request_tx,
                 keepalive_interval: options.keepalive_interval,
-                keepalive_timeout: options.keepalive_timeout,
+                keepalive_timeout: options.effective_keepalive_timeout(),
             },
             dropped_flows_rx,
             tx_msg_rx,
